@@ -26,6 +26,14 @@ CLAIMS = {
    "deterministic simulation: seeded histories of write sessions with restarts over a simulated disk, read back through the real reader against a reference store model",
    "Seeded histories of 2-6 raw write sessions (arbitrary column payloads from 0 B to 300 KiB biased to the 4 KiB bufio / 8 KiB scratch buffer sizes, compressible and incompressible, lz4/zstd/null, levels 0-12, several days and interfaces, process restart between sessions) followed by flow-level write-outs; after every session every block written so far is read back through the real reader (default and read-all mode, forward and reverse block order) and compared byte for byte, with per-block and per-day summaries, against the model.",
    "Sampled, not exhaustive. Fault-free configuration (faults are C04/C05). cgo encoders (the native builds are C02)."),
+ "C02": ("store-sim", "exploration", "7.2",
+   "deterministic simulation: restart into a differently built binary over one simulated disk image - the cgo and the pure-Go compression back ends of the current tree are compiled into one harness binary through a build-time seam on encoder.New, the simulator decides per write session and per reader which of the four build configurations the (re)started process is; read back through the real reader and query engine against a reference store model",
+   "Seeded histories of 1-4 raw write sessions (arbitrary column payloads 0 B-300 KiB biased to the 4 KiB / 8 KiB buffers, compressible and incompressible, lz4/zstd/null, levels 0-12) and 1-4 flow-level write-outs; every session is executed by a freshly started writer of a drawn build configuration (cgo, CGO_ENABLED=0, goprobe_noliblz4, goprobe_nolibzstd; a new draw per session / one non-default build throughout / the same history written by two builds on two disks); after every session a freshly started reader of a drawn build, after the last session one of each build, reads every block back byte for byte (both reader modes, summaries) and queries the flow-level interfaces through the real engine.",
+   "The four back-end files (all code that differs between the builds) run as real code; the build configuration itself is simulated (run-time switch instead of build tags), so what a CGO_ENABLED=0 linker or a missing system library does is not covered. Sampled, not exhaustive."),
+ "C07": ("stream-sim", "exploration", "7.7",
+   "deterministic simulation with fault injection: each compressor implementation (cgo and pure-Go back ends in one binary) driven as stateful stream code by a seeded history of Compress/Decompress/SetLevel calls with scratch buffers of drawn length/capacity and dirty contents, destination writers that fail after j bytes and source readers with short reads, errors and EOF mid-block; round-trip oracle incl. the call after a failed call",
+   "One long-lived instance per run (lz4/zstd x cgo/pure Go, null; default or drawn level) receives 4-16 calls: inputs of 0 B-600 KiB (zeros, text, incompressible, mixed, sparse), scratch buffers nil / empty with capacity / len 8192 (the storage layer's) / shorter than the input / longer than any output / reused, writers failing after j bytes, readers with short read / error / EOF mid-block. Checked: reported count = bytes that reached the writer (also on failure), a writer error is reported, input unmodified, every fault-free frame decodes to the input on the same instance, a second long-lived instance and a fresh one (with dirty in/out buffers, nothing written beyond len(out)), a read fault yields an error or correct data and leaves the instance usable, all frames decode at the end.",
+   "The input space is sampled (the property quantifies over all inputs up to several hundred KiB). A crash of the process in C code (signal) is attributed to the run by the driver and reported as process-crash."),
  "C03": ("store-sim", "exploration", "7.3",
    "deterministic simulation: seeded write histories with a jumping clock (non-monotone stamps, huge gaps, extreme counts) checked accepted=>reopens equal / rejected=>unchanged, plus torn and damaged metadata images fed to every reader entry point",
    "Seeded histories whose timestamps come from a clock that jumps (equal, backwards, before the day's first block, gaps of 2^32-1 and beyond, negative) with summaries beyond 2^32-1 and counters near 2^64: every session is either rejected with the reopened day unchanged or accepted with the reopened day exactly equal to the model. Then >= 30 malformed variants of the real .blockmeta (every prefix in the thorough tier = what a torn metadata write leaves, bit flips, garbage, blown-up count/length fields) are fed to the reader, listing, query engine and the writer's open path; a panic or an allocation > 128 MiB for a KiB-sized database is a violation.",
@@ -102,6 +110,7 @@ CLAIMS = {
 
 ENGINES = {
  "store-sim": ("harness/store", "real gpfile/DBWriter/reader/listing/query/CSV-import code over the simulated disk; seeded histories of write sessions, restarts, kills, torn writes and I/O errors"),
+ "stream-sim": ("harness/enc", "real compressor implementations (cgo and pure-Go back ends compiled into one binary through the build-configuration seam) driven as stateful stream code with dirty scratch buffers and fault-injecting writers/readers"),
  "merge-sim": ("harness/merge", "real MergeDatabases over a read-only source disk and a destination disk; generated database pairs; kills at every structural operation"),
  "capture-sim": ("harness/capture", "real capture manager (three-point lock, packet loop, local buffer, flow log, rotation goroutine, write-out handler, DB writer, live-query path) with simulated packet sources, fake clock, simulated disk and a seeded scheduler at every seam (source calls, mutexes via simsync, file-system operations)"),
  "dist-sim": ("harness/dist", "real distributed query runner (cmd/global-query), API client querier and HTTP client stack over a simulated transport and fake clock; reply order, delays, losses, errors, partitions and semaphore time-outs decided by the simulator; also serves the distributed variant of C31"),
@@ -138,7 +147,7 @@ def main():
        "source_commits":hook_commits,"add_only":True},
      "engines":[{"name":n,"path":p,"serves_properties":[c for c in ALL if c in CLAIMS and CLAIMS[c][0]==n],"kind_free_text":k} for n,(p,k) in ENGINES.items()],
      "checks":checks,
-     "notes":"Deterministic simulation with fault injection; see DESIGN.md. All checks rebuild from /repo's working tree through a go/ast rewrite (os.* -> verif/simfs, sync.Mutex -> verif/simsync in capture packages) handed to the go tool as -overlay; /repo is never modified. Exit 2 = machinery failure, never phrased as a violation.",
+     "notes":"Deterministic simulation with fault injection; see DESIGN.md. All checks rebuild from /repo's working tree through a go/ast rewrite (os.* -> verif/simfs, sync.Mutex -> verif/simsync in capture packages, encoder.New -> build-configuration switch with the pure-Go back ends compiled in) handed to the go tool as -overlay; /repo is never modified. Exit 2 = machinery failure, never phrased as a violation.",
      "not_applicable":na,
     }
     json.dump(m, open(os.path.join(here,"MANIFEST.json"),"w"), indent=1)
